@@ -43,6 +43,7 @@ type Result struct {
 	Detail     string `json:"detail,omitempty"`
 	Frame      string `json:"frame,omitempty"`
 	Reproduced bool   `json:"reproduced,omitempty"`
+	Retried    string `json:"retried,omitempty"` // the first attempt ended this way; both reruns alone completed
 }
 
 // PanicInfo is what Guard returns when f panics.
@@ -370,23 +371,33 @@ func runShard(cases []json.RawMessage, results []Result, s, e int, timeout time.
 		cp.kill()
 		cp = nil
 		// reproduce alone, twice, with a generous bound
-		repro := 0
+		repro, clean := 0, 0
 		var lastDetail string
+		var cleanRes json.RawMessage
 		for k := 0; k < 2; k++ {
 			c2, err := startChild()
 			if err != nil {
 				break
 			}
-			_, st2 := c2.runOne(cases[i], 2*timeout)
+			res2, st2 := c2.runOne(cases[i], 2*timeout)
 			time.Sleep(50 * time.Millisecond)
 			if st2 == st {
 				repro++
 				lastDetail = c2.stderr.String()
+			} else if st2 == "" {
+				clean++
+				cleanRes = res2
 			}
 			c2.kill()
 		}
 		if lastDetail != "" {
 			detail = lastDetail
+		}
+		if clean == 2 {
+			// the case ran to its end twice when run alone: what happened the first time (a time limit missed on a
+			// loaded machine, a child killed from outside) is not a property of the case; its result is the rerun's
+			results[i] = Result{Res: cleanRes, Retried: st}
+			continue
 		}
 		results[i] = Result{Crash: st, Detail: clip(detail, 6000), Frame: crashFrame(detail), Reproduced: repro == 2}
 	}
